@@ -10,12 +10,16 @@
   Hypotheses, all on data the property quantifies over or on the external engine:
   * `HeraldsWF`  : the herald dictionary has distinct modes inside the circuit;
   * `EngOK`      : on the groups that occur the engine returns `m`-mode states with the group's photon number
-                   (conservation), non-negative numbers of total 1 (unitarity) — C02's subject;
+                   (conservation), non-negative numbers of total 1 (unitarity) — C02's subject; for the Fock-space
+                   engine `probsFock U` of a unitary matrix this is *proved* (`fock_engine_ok`, from C02's
+                   `dist_sums_to_one_GQ`) and the `…_unitary` corollaries at the end carry no engine hypothesis;
   * `MixOK`      : the input mixture has non-negative weights of total 1.
   Nothing is assumed on where the heralds sit, on their values, on the photon numbers of the groups (a group may
   hold fewer photons than the heralds ask for), on the filter value or on the post-selection expression.
 -/
 import PercevalModel.Lemmas.C04
+import PercevalModel.Lemmas.C04Mass
+import PercevalModel.Props.C02
 
 namespace PM.C04
 open PM.Fock PM.Dist PM.SimSpec
@@ -104,7 +108,7 @@ theorem logical_perf_spec (eng : Fock → D) (c : Cfg) (members : List Member)
       simp
     · simp only
       have hn : normalize (codeRes eng c members) =
-          scale (mass (codeRes eng c members))⁻¹ (codeRes eng c members) := by simp [normalize, hacc]
+          scale (mass (codeRes eng c members))⁻¹ (codeRes eng c members) := by simp [Dist.normalize, hacc]
       have h1 : mass (normalize (codeRes eng c members)) = 1 := mass_normalize _ hacc
       have h2 := mass_restrict_add (logicOk (cond c)) (normalize (codeRes eng c members))
       have h3 : mass (restrict (logicOk (cond c)) (normalize (codeRes eng c members))) =
@@ -137,7 +141,7 @@ theorem condition_spec (eng : Fock → D) (c : Cfg) (members : List Member)
   rw [hR, probsSvd_eq]
   simp only [hacc, ↓reduceIte]
   have hn : normalize (codeRes eng c members) =
-      scale (mass (codeRes eng c members))⁻¹ (codeRes eng c members) := by simp [normalize, hacc]
+      scale (mass (codeRes eng c members))⁻¹ (codeRes eng c members) := by simp [Dist.normalize, hacc]
   unfold postSelect
   split
   · next hnc =>
@@ -471,7 +475,7 @@ example :
     (probsSvdDet idEng { m := 2, heralds := [(0, 1)], ps := .tt, userFilter := 1, keepHeralds := false, pnr := true }
       [.none, .thr] [⟨1/2, [[1, 2]]⟩, ⟨1/2, [[0, 2]]⟩]).phys = 1/2 := by
   simp [probsSvdDet, allPnr, Det.isPnr, physInputs, minFilter, nHeralds, Member.n, kept, memberDist, convAll,
-    groupDist, canUseMask, idEng, mix, scale, conv, zeros, fadd, List.replicate, mass, normalize, detect,
+    groupDist, canUseMask, idEng, mix, scale, conv, zeros, fadd, List.replicate, mass, Dist.normalize, detect,
     detectState, Det.kern, restrict]
   norm_num
 
@@ -492,5 +496,127 @@ example : (probsSvdDet idEng exCfg [.pnr, .none, .pnr] exMembers).results =
     conditioned (cond exCfg) (detectedFull idEng exCfg.m [.pnr, .none, .pnr] exMembers) :=
   (condition_spec_pnr_detectors idEng exCfg [.pnr, .none, .pnr] exMembers (by decide) (Or.inr rfl) exWF exEng exMix
     (by rw [detectedFull_pnr idEng exCfg _ exMembers (by decide) (Or.inr rfl) exEng]; exact exRet)).1
+
+/-! ### the engine hypothesis discharged: Fock-space engine of a unitary matrix
+
+`EngOK` was a hypothesis on an abstract engine.  For the specification engine `probsFock U` of a *unitary* `U` all
+three parts hold — shape by enumeration (`probsFock_shape`), non-negativity by construction, total probability one
+by C02's `dist_sums_to_one_GQ` (Parseval for permanents) — so the end-to-end statements below assume unitarity of
+the circuit matrix and well-formed data only. -/
+
+/-- the Fock-space distribution of one group of photons through a unitary matrix has total probability one -/
+theorem probsFock_total_one {m : ℕ} (U : Matrix (Fin m) (Fin m) GQ) (hU : IsUnitary U) (s : Fock)
+    (hs : s.length = m) : mass (probsFock U s) = 1 := by
+  rw [mass_probsFock]
+  exact PM.C02.dist_sums_to_one_GQ U hU s hs
+
+/-- `EngOK` holds for the Fock-space engine of every unitary matrix, on every mixture of `m`-mode groups -/
+theorem fock_engine_ok {m : ℕ} (U : Matrix (Fin m) (Fin m) GQ) (hU : IsUnitary U) (members : List Member)
+    (hlen : ∀ mb ∈ members, ∀ s ∈ mb.groups, s.length = m) : EngOK (probsFock U) m members :=
+  ⟨fun _ _ s _ => probsFock_shape U s,
+   fun mb hmb s hs => probsFock_total_one U hU s (hlen mb hmb s hs),
+   fun _ _ s _ => NN_probsFock U s⟩
+
+/-- the unconditioned output distribution of a mixture through a unitary circuit is a probability distribution -/
+theorem full_mass_one_unitary {m : ℕ} (U : Matrix (Fin m) (Fin m) GQ) (hU : IsUnitary U) (members : List Member)
+    (hlen : ∀ mb ∈ members, ∀ s ∈ mb.groups, s.length = m) (hmix : MixOK members) :
+    mass (full (probsFock U) m members) = 1 :=
+  mass_full_one _ m members (fock_engine_ok U hU members hlen).massOne hmix.wsum
+
+/-- **condition_spec for a unitary circuit**, against the shared specification: the returned distribution is the
+mixture of the members' `probsTagged` distributions restricted to filter ∧ heralds ∧ post-selection, herald modes
+removed, renormalised.  No hypothesis on the engine. -/
+theorem condition_spec_unitary {m : ℕ} (c : Cfg) (hcm : c.m = m) (U : Matrix (Fin m) (Fin m) GQ) (hU : IsUnitary U)
+    (members : List Member) (wf : HeraldsWF c.m c.heralds)
+    (hlen : ∀ mb ∈ members, ∀ s ∈ mb.groups, s.length = m) (hmix : MixOK members)
+    (hret : mass (retained (cond c) (mix (members.map fun mb => (mb.w, probsTagged U mb.groups)))) ≠ 0) :
+    (probsSvd (probsFock U) c members).results =
+      conditioned (cond c) (mix (members.map fun mb => (mb.w, probsTagged U mb.groups))) := by
+  subst hcm
+  rw [← full_eq_probsTagged] at hret ⊢
+  exact condition_spec _ c members wf (fock_engine_ok U hU members hlen) hmix hret
+
+/-- …and it has total probability one -/
+theorem results_mass_one_unitary {m : ℕ} (c : Cfg) (hcm : c.m = m) (U : Matrix (Fin m) (Fin m) GQ) (hU : IsUnitary U)
+    (members : List Member) (wf : HeraldsWF c.m c.heralds)
+    (hlen : ∀ mb ∈ members, ∀ s ∈ mb.groups, s.length = m) (hmix : MixOK members)
+    (hret : mass (retained (cond c) (mix (members.map fun mb => (mb.w, probsTagged U mb.groups)))) ≠ 0) :
+    mass (probsSvd (probsFock U) c members).results = 1 := by
+  subst hcm
+  rw [← full_eq_probsTagged] at hret
+  exact results_mass_one _ c members wf (fock_engine_ok U hU members hlen) hmix hret
+
+/-- the two performances of a unitary circuit are those of the specification -/
+theorem perf_spec_unitary {m : ℕ} (c : Cfg) (hcm : c.m = m) (U : Matrix (Fin m) (Fin m) GQ) (hU : IsUnitary U)
+    (members : List Member) (wf : HeraldsWF c.m c.heralds)
+    (hlen : ∀ mb ∈ members, ∀ s ∈ mb.groups, s.length = m) (hmix : MixOK members) :
+    (probsSvd (probsFock U) c members).phys =
+      physPerf (cond c) (mix (members.map fun mb => (mb.w, probsTagged U mb.groups))) ∧
+    (probsSvd (probsFock U) c members).logical =
+      logicalPerf (cond c) (mix (members.map fun mb => (mb.w, probsTagged U mb.groups))) := by
+  subst hcm
+  rw [← full_eq_probsTagged]
+  have he := fock_engine_ok U hU members hlen
+  exact ⟨physical_perf_spec _ c members he hmix, logical_perf_spec _ c members wf he hmix⟩
+
+/-- **perf_product for a unitary circuit**: physical × logical performance = the probability that the output of
+the unconditioned (normalised) mixture passes the filter, the heralds and the post-selection -/
+theorem perf_product_unitary {m : ℕ} (c : Cfg) (hcm : c.m = m) (U : Matrix (Fin m) (Fin m) GQ) (hU : IsUnitary U)
+    (members : List Member) (wf : HeraldsWF c.m c.heralds)
+    (hlen : ∀ mb ∈ members, ∀ s ∈ mb.groups, s.length = m) (hmix : MixOK members)
+    (hphys : (probsSvd (probsFock U) c members).phys ≠ 0) :
+    (probsSvd (probsFock U) c members).phys * (probsSvd (probsFock U) c members).logical =
+      mass (retained (cond c) (mix (members.map fun mb => (mb.w, probsTagged U mb.groups)))) ∧
+    mass (mix (members.map fun mb => (mb.w, probsTagged U mb.groups))) = 1 := by
+  subst hcm
+  rw [← full_eq_probsTagged]
+  exact ⟨perf_product _ c members wf (fock_engine_ok U hU members hlen) hmix hphys,
+    full_mass_one_unitary U hU members hlen hmix⟩
+
+/-! non-vacuity of the unitary corollaries: `uCfg`, `uMembers`, `PM.C02.exU` (`Lemmas/C04Mass.lean`) — a mixing
+unitary, a herald, a filter that removes one member; 17/50 of the probability is retained -/
+
+theorem uRet' : mass (retained (cond uCfg) (mix (uMembers.map fun mb => (mb.w, probsTagged PM.C02.exU mb.groups))))
+    = 17 / 50 := by
+  rw [← full_eq_probsTagged]; exact uRet
+
+example : IsUnitary PM.C02.exU ∧ HeraldsWF uCfg.m uCfg.heralds ∧
+    (∀ mb ∈ uMembers, ∀ s ∈ mb.groups, s.length = 2) ∧ MixOK uMembers ∧
+    mass (retained (cond uCfg) (mix (uMembers.map fun mb => (mb.w, probsTagged PM.C02.exU mb.groups)))) ≠ 0 :=
+  ⟨exU_isUnitary, uWF, uLen, uMix, by rw [uRet']; norm_num⟩
+
+example : mass (probsSvd (probsFock PM.C02.exU) uCfg uMembers).results = 1 :=
+  results_mass_one_unitary (m := 2) uCfg rfl PM.C02.exU exU_isUnitary uMembers uWF uLen uMix (by rw [uRet']; norm_num)
+
+example : (probsSvd (probsFock PM.C02.exU) uCfg uMembers).results =
+    conditioned (cond uCfg) (mix (uMembers.map fun mb => (mb.w, probsTagged PM.C02.exU mb.groups))) :=
+  condition_spec_unitary (m := 2) uCfg rfl PM.C02.exU exU_isUnitary uMembers uWF uLen uMix (by rw [uRet']; norm_num)
+
+example : (probsSvd (probsFock PM.C02.exU) uCfg uMembers).phys * (probsSvd (probsFock PM.C02.exU) uCfg uMembers).logical
+    = 17 / 50 := by
+  have h := perf_product_unitary (m := 2) uCfg rfl PM.C02.exU exU_isUnitary uMembers uWF uLen uMix (by
+    rw [(perf_spec_unitary (m := 2) uCfg rfl PM.C02.exU exU_isUnitary uMembers uWF uLen uMix).1, ← full_eq_probsTagged]
+    intro h0
+    have hnn : NN (restrict (physOk (cond uCfg)) (full (probsFock PM.C02.exU) 2 uMembers)) :=
+      (NN.mix _ (by
+        intro p hp
+        obtain ⟨mb, hmb, rfl⟩ := List.mem_map.1 hp
+        refine ⟨uMix.wpos mb hmb, ?_⟩
+        apply NN.convAll
+        · intro q hq
+          simp only [List.mem_singleton] at hq
+          simp [hq]
+        · intro d hd
+          obtain ⟨s, _, rfl⟩ := List.mem_map.1 hd
+          exact NN_probsFock _ s)).restrict _
+    have h1 : retained (cond uCfg) (full (probsFock PM.C02.exU) 2 uMembers) =
+        restrict (logicOk (cond uCfg)) (restrict (physOk (cond uCfg)) (full (probsFock PM.C02.exU) 2 uMembers)) := by
+      rw [restrict_restrict]; rfl
+    have h2 := mass_restrict_le hnn (logicOk (cond uCfg))
+    rw [← h1] at h2
+    have h3 : mass (retained (cond uCfg) (full (probsFock PM.C02.exU) 2 uMembers)) = 17 / 50 := uRet
+    unfold physPerf at h0
+    linarith)
+  rw [h.1, uRet']
 
 end PM.C04
